@@ -138,7 +138,7 @@ def verify_contract(ctx, contract, timeout_ms=None):
     allv = []
     t0 = time.time()
     cases = list(contract.cases())
-    if len(cases) > 24:
+    if len(cases) > 24 or (getattr(contract, 'parallel', False) and len(cases) > 1):
         return _verify_parallel(ctx, contract, cases, timeout_ms, fn, shash, summary)
     try:
         for case in cases:
@@ -182,7 +182,7 @@ def _verify_parallel(ctx, contract, cases, timeout_ms, fn, shash, summary):
     t0 = time.time()
     key = (contract.module, contract.key_name)
     _PAR[key] = contract
-    nchunks = 64
+    nchunks = min(64, len(cases))
     chunks = [cases[i::nchunks] for i in range(nchunks)]
     res = pmap(_case_chunk, [(key, ch, timeout_ms) for ch in chunks if ch])
     nobl = 0
